@@ -1,6 +1,7 @@
 """Builds the prompt given to an independent sub-agent that seeds a property-breaking change.
 The agent gets ONLY the property text and its scratch worktree - nothing from /verif."""
 import json, sys
+DIVERSITY2 = """\nCHOOSING THE SITES: several rounds of people have already seeded regressions for this property at the central, obvious sites and at many secondary ones. Start by listing every PUBLIC entry point, option, parameter value, input kind and environment condition through which the property can be exercised (read the docstrings and the documentation under doc/ as well as the code), including the rarely used ones. Then write down at least ten candidate sites and pick two that are reached only through a less common entry point, option, input kind or combination of two features - but that still clearly contradict the property statement and lie inside its quantifier. Avoid anything whose trigger is merely \"the most common call\".\n"""
 DIVERSITY = """\nCHOOSING THE SITES: other people have already seeded the most obvious regressions for this property. Before you choose, read all the code involved and write down at least eight candidate sites (across ALL the files named above, including helper functions, error-handling paths, rarely used options and parameters, platform or version branches that are live on this machine, and interactions between two features); then pick two that are NOT the first ones anyone would think of and that exercise different parts of the property statement and of its quantifier.\n"""
 def prompt(pid, wt, ks=(1, 2), diverse=False):
     p = next(json.loads(l) for l in open("/verif/properties.jsonl") if json.loads(l)["id"] == pid)
@@ -21,7 +22,7 @@ YOUR TASK: produce TWO different, independent changes to joblib's source code (n
   (b) the property above is violated for some input / schedule / crash point / history / configuration;
   (c) the change looks like a plausible regression a maintainer could introduce (refactoring slip, off-by-one, inverted or weakened condition, statement moved out of a lock, reordered statements, missing reset, dropped special case, wrong default...), not sabotage with an obvious marker;
   (d) it needs something SPECIFIC to manifest - a particular interleaving, a crash or fault at a particular point, a multi-step sequence of operations, an unusual input or configuration, or two cooperating sites that each look fine alone - rather than being exposed at once by ordinary use. The two changes should differ in mechanism (different code site / different trigger).
-{extra}{DIVERSITY if diverse else ""}
+{extra}{(DIVERSITY2 if diverse == 2 else DIVERSITY) if diverse else ""}
 For each change k in ({ks[0]}, {ks[1]}) write into {wt}/out/ :
   - m{{k}}.diff      : the patch, produced with `git -C {wt} diff` (must apply to the clean worktree with `git apply`);
   - m{{k}}_demo.py   : a self-contained demonstration program, run as `cd {wt} && PYTHONPATH={wt} /venv/bin/python out/m{{k}}_demo.py`, that exits 0 on the clean worktree and exits non-zero (printing what went wrong) with the patch applied. Make it deterministic whenever possible (events, barriers, a custom backend, a controlled fault injection such as a monkeypatched os function or a killed subprocess) rather than relying on sleeps or luck; if some nondeterminism is unavoidable, loop enough times that it fails reliably and say so;
@@ -29,4 +30,4 @@ For each change k in ({ks[0]}, {ks[1]}) write into {wt}/out/ :
 Verify all of it yourself: demo passes on the clean tree, fails with the patch, full suite passes with the patch. After finishing each change run `git -C {wt} checkout -- .` so that the worktree is clean again (keep the out/ directory, it is untracked). Use scratch files only inside {wt}. Finish with a short report (what each change does, what it needs to manifest, and the suite result)."""
 if __name__ == "__main__":
     ks = tuple(int(x) for x in sys.argv[3].split(",")) if len(sys.argv) > 3 else (1, 2)
-    print(prompt(sys.argv[1], sys.argv[2], ks, diverse=len(sys.argv) > 4))
+    print(prompt(sys.argv[1], sys.argv[2], ks, diverse=(2 if len(sys.argv) > 4 and sys.argv[4] == "diverse2" else len(sys.argv) > 4)))
